@@ -228,6 +228,10 @@ def _run_bell(ctx, spec, rng):
         j, a, b, av, bv, name = [[1, 1], [1, -1]], [0, 0], [0, 0], pm, pm, "chsh"
     elif r == 1:  # Clauser-Horne, 0/1-valued outcomes
         j, a, b, av, bv, name = [[1, 1], [1, -1]], [-1, 0], [-1, 0], [1.0, 0.0], [1.0, 0.0], "CH"
+    elif r % 5 == 4:  # the two parties label their outcomes differently (+1/-1 against 0/1, or arbitrary values), marginal terms present
+        j, a, b = rng.normal(size=(2, 2)), rng.normal(size=2) * 0.7, rng.normal(size=2) * 0.7
+        av, bv = [(pm, [0.0, 1.0]), ([1.0, 0.0], pm), ([2.0, -1.0], [0.5, 3.0]), (pm, [1.0, 0.0])][(r // 5) % 4]
+        name = "different-outcome-labels"
     elif r % 4 == 3:  # integer coefficients with exact zeros, marginal terms, either outcome labelling
         j = rng.integers(-2, 3, size=(2, 2)).astype(float)
         j[int(rng.integers(0, 2)), int(rng.integers(0, 2))] = 0.0
